@@ -212,6 +212,15 @@ func (c *Ctx) checkReturn(rp retPath, fc *FuncContract, fn *ssa.Function, args [
 		genv.results = env.results
 		c.applyGhostEnv(s, genv, fc.GhostAtExit)
 	}
+	// postconditions of an atomic operation speak about the state at its linearisation point (the end
+	// of its first critical section): afterwards other threads may already have changed it
+	finalHeap := s.heap
+	if fc.Atomic && s.atUnlock != nil {
+		s.heap = make(map[string]Term, len(s.atUnlock.heap))
+		for k, v := range s.atUnlock.heap {
+			s.heap[k] = v
+		}
+	}
 	for i, en := range fc.Ensures {
 		g := env.evalBool(en.Expr)
 		if len(env.errs) > 0 {
@@ -228,6 +237,7 @@ func (c *Ctx) checkReturn(rp retPath, fc *FuncContract, fn *ssa.Function, args [
 		}
 		c.oblige(s, "ensures", fmt.Sprintf("%s/ensures[%s]", fc.Key, label), g, "", "postcondition: "+en.Src, props)
 	}
+	s.heap = finalHeap
 	// locks must not leak out of a function unless its contract says so
 	if len(s.locks) > len(fc.Holds) && !fc.Goroutine {
 		var ks []string
@@ -242,29 +252,59 @@ func (c *Ctx) checkReturn(rp retPath, fc *FuncContract, fn *ssa.Function, args [
 	}
 }
 
-// checkAtomic: every access to guarded state and every clock read lies inside one critical section.
+// checkAtomic: every effect on guarded state and every clock read lies inside one critical section.
+// Further critical sections are tolerated only if they are observation-only (no write to a guarded
+// field, no map update, no clock read): they cannot change what the operation did at its
+// linearisation point, the end of the first critical section, where its postconditions are evaluated.
 func (c *Ctx) checkAtomic(s *State, fc *FuncContract) {
-	locks := 0
+	sections := 0 // critical sections entered
+	effective := 0
 	inCS := false
 	ok := true
 	why := ""
+	var startGW, updates, clocks int
+	closeCS := func(gw int) {
+		if sections == 1 || gw > startGW || updates > 0 || clocks > 0 {
+			effective++
+		}
+	}
+	depth := 0
 	for _, ev := range s.trace {
 		switch {
 		case strings.HasPrefix(ev.Name, "lock:"), strings.HasPrefix(ev.Name, "rlock:"):
-			locks++
-			inCS = true
+			if depth == 0 {
+				sections++
+				inCS = true
+				startGW, updates, clocks = ev.GW, 0, 0
+			}
+			depth++
 		case strings.HasPrefix(ev.Name, "unlock:"):
-			inCS = false
+			depth--
+			if depth <= 0 {
+				depth = 0
+				inCS = false
+				closeCS(ev.GW)
+			}
+		case ev.Name == "mapupdate" || ev.Name == "mapdelete":
+			if inCS {
+				updates++
+			}
 		case ev.Name == "clock":
-			if !inCS && locks > 0 || (!inCS && locks == 0 && c.pathLocksLater(s, ev)) {
+			if inCS {
+				clocks++
+			}
+			if !inCS && sections > 0 || (!inCS && sections == 0 && c.pathLocksLater(s, ev)) {
 				ok = false
 				why = "clock read outside the critical section at " + ev.Pos
 			}
 		}
 	}
-	if locks > 1 {
+	if inCS {
+		closeCS(s.gwrites)
+	}
+	if effective > 1 {
 		ok = false
-		why = fmt.Sprintf("%d critical sections in an operation declared atomic", locks)
+		why = fmt.Sprintf("%d critical sections with effects in an operation declared atomic", effective)
 	}
 	c.structural(ok, "atomic", fc.Key+"/atomic:single-critical-section", "", "atomic operation: "+why, []string{"C19"})
 }
